@@ -229,3 +229,13 @@ def install():
     pyk.kore = kore
     sys.modules['pyk.kore'] = kore
     sys.modules['pyk.kore.syntax'] = syntax
+    # `proof_generation.llvm_proof_hint` imports the LLVM bindings at module level (only its dataclasses are used here)
+    if 'pyk.kllvm' not in sys.modules:
+        kllvm = types.ModuleType('pyk.kllvm')
+        for sub in ('load', 'ast', 'convert'):
+            m = types.ModuleType('pyk.kllvm.' + sub)
+            setattr(kllvm, sub, m)
+            sys.modules['pyk.kllvm.' + sub] = m
+        kllvm.convert.llvm_to_pattern = lambda *a, **k: (_ for _ in ()).throw(NotImplementedError('pyk.kllvm is not installed'))
+        pyk.kllvm = kllvm
+        sys.modules['pyk.kllvm'] = kllvm
